@@ -897,4 +897,181 @@ Section Sound.
     intros [<-|H0] H; [exact H|]. apply reach_split in H. destruct H as [[<-|[]]|H]; [exact H0|].
     eapply reach_incl; [|exact H]. intros y [].
   Qed.
+
+  (* ---- setFieldValue --------------------------------------------------------------------------------- *)
+  Lemma any_sdeep r pp ic tm md slots : is_any ann tm = true -> get_msg sch tm = Some md ->
+    s_any o sch ann (SD r) r ic slots [] -> SD (S r) pp ic tm (VMsg slots []).
+  Proof.
+    unfold is_any, wkt_of. intros Ha Hg Hs. cbn [sdeep]. rewrite Hg.
+    destruct (nth_error ann tm) as [ma|]; [|discriminate]. destruct (a_wkt ma); try discriminate. exact Hs.
+  Qed.
+
+  Definition field_facts (f : field) (fa : fannot) : Prop :=
+    (forall k, f_ty f = TScalar k -> k = KEnum -> enum_decl_ok (a_enum fa)) /\
+    (forall kk, f_shape f = MapOf kk -> kk <> KEnum) /\
+    (forall tm, f_ty f = TMsg tm -> exists md', get_msg sch tm = Some md').
+
+  Definition succ_of (r : nat) (f : field) : bool :=
+    match f_ty f with TScalar _ => true | TMsg tm => child_ok_singular o ann r tm end.
+
+  Lemma singular_ok_iff depth tm : is_any ann tm = false ->
+    (child_ok_singular o ann (12 - S depth) tm = true <-> (S depth <= 10)%nat).
+  Proof.
+    intros Ha. unfold child_ok_singular. rewrite Ha. split; intros H; [apply Nat.leb_le in H; lia|apply Nat.leb_le; lia].
+  Qed.
+
+  (* the message-typed child of a singular field or oneof member *)
+  Lemma msg_child_ok child depth fa tm s tp res tp' q :
+    child_sound child (S depth) -> child_sound child (S (S depth)) -> (depth <= 10)%nat ->
+    (exists md', get_msg sch tm = Some md') ->
+    (s = VNil \/ (is_msgv s = true /\ SD (12 - S depth) q (IField (a_iface fa)) tm s)) ->
+    (if is_any ann tm then gen_any vr o sch ann child (S depth) (IField (a_iface fa)) tp
+     else child (S depth) (IField (a_iface fa)) tm (or_fresh sch tm s) tp) = Ok (res, tp') ->
+    match res with
+    | Some v => is_msgv v = true /\ child_ok_singular o ann (12 - S depth) tm = true /\
+                SD (12 - S depth) (q + 1) (IField (a_iface fa)) tm v
+    | None => child_ok_singular o ann (12 - S depth) tm = false
+    end.
+  Proof.
+    intros Hc1 Hc2 Hd [md' Hg] Hs. destruct (is_any ann tm) eqn:Ea.
+    - intros E. pose proof (gen_any_sound _ _ _ _ _ _ Hc2 ltac:(lia) E) as H. destruct res as [A|].
+      + destruct H as (Hu & slots & -> & Hsa). split; [reflexivity|]. unfold child_ok_singular. rewrite Ea. split; [exact Hu|].
+        replace (12 - S depth)%nat with (S (11 - S depth)) by lia. eapply any_sdeep; eauto.
+      + unfold child_ok_singular. rewrite Ea. exact H.
+    - intros E. specialize (Hc1 _ _ _ _ _ _ E). cbn beta iota in Hc1. destruct res as [v|].
+      + destruct Hc1 as (H1 & _ & Hm & (md & ma & Hg' & Hn) & Hsd). split; [exact Hm|].
+        split; [apply singular_ok_iff; assumption|].
+        destruct Hs as [->|[Hm' Hs]].
+        * cbn [or_fresh] in Hsd. apply (sdeep_mono _ 1 (q + 1)); [lia|]. apply (Hsd 0).
+          replace (12 - S depth)%nat with (S (11 - S depth)) by lia. eapply fresh_cur_ok; eauto.
+        * apply Hsd. destruct s; try discriminate. cbn [or_fresh]. eapply sdeep_cur_ok. exact Hs.
+      + destruct (child_ok_singular o ann (12 - S depth) tm) eqn:E0; [|reflexivity].
+        apply singular_ok_iff in E0; [|exact Ea]. destruct Hc1 as [Hc1|[Hc1 _]]; [lia|congruence].
+  Qed.
+
+  Lemma min_n_len : min_n o = min_len o.
+  Proof. reflexivity. Qed.
+
+  Lemma len_le_intro {A} (l : list A) b : N.of_nat (length l) <= b -> len_le l b = true.
+  Proof. intros H. unfold len_le. apply N.leb_le. exact H. Qed.
+  Lemma len_le_elim {A} (l : list A) b : len_le l b = true -> N.of_nat (length l) <= b.
+  Proof. unfold len_le. apply N.leb_le. Qed.
+
+  Lemma Forall_forallb {A} (g : A -> bool) l : Forall (fun x => g x = true) l -> forallb g l = true.
+  Proof. intros H. apply forallb_forall. rewrite Forall_forall in H. exact H. Qed.
+
+  Lemma sfv_sound child depth md idx f fa slots tp slots' tp' q :
+    child_sound child (S depth) -> child_sound child (S (S depth)) -> (depth <= 10)%nat ->
+    field_facts f fa ->
+    cslot o ann (SD (12 - S depth)) (12 - S depth) q f fa (nth idx slots VNil) ->
+    set_field_value vr o sch ann child depth md idx f fa slots tp = Ok (slots', tp') ->
+    match f_shape f with
+    | Member oi =>
+      (exists e, slots' = set_nth (clear_oneof (m_fields md) slots oi) idx (VSome e) /\
+                 sslot o sch ann (SD (12 - S depth)) (12 - S depth) (q + 1) f fa (VSome e) /\
+                 succ_of (12 - S depth) f = true) \/
+      (slots' = clear_oneof (m_fields md) slots oi /\ succ_of (12 - S depth) f = false)
+    | _ => exists v, slots' = set_nth slots idx v /\ sslot o sch ann (SD (12 - S depth)) (12 - S depth) (q + 1) f fa v
+    end.
+  Proof.
+    intros Hc1 Hc2 Hd (F1 & F2 & F3) Hcs. unfold set_field_value. set (s := nth idx slots VNil) in *.
+    set (r' := (12 - S depth)%nat) in *. unfold cslot in Hcs.
+    destruct (f_shape f) as [|packed|oi|kk] eqn:Es; destruct (f_ty f) as [k|tm] eqn:Et.
+    - (* singular scalar *)
+      pose proof (gen_scalar_ok o k (a_enum fa) tp Hfm (F1 k eq_refl)) as Hv.
+      destruct (gen_scalar vr o k (a_enum fa) tp) as [v t1]. cbn [fst] in Hv. intros E. injection E as <- <-.
+      exists v. split; [reflexivity|]. unfold sslot, rg_slot, selem. rewrite Es, Et. split; [reflexivity|exact Hv].
+    - (* singular message *)
+      match goal with |- context [if is_any ann tm then ?a else ?b] => destruct (if is_any ann tm then a else b) as [[res t1]| | |] eqn:Er end; try discriminate.
+      assert (Hs' : s = VNil \/ (is_msgv s = true /\ SD r' q (IField (a_iface fa)) tm s)) by (destruct Hcs as [H|(H1 & _ & H2)]; auto).
+      pose proof (msg_child_ok child depth fa tm s tp res t1 q Hc1 Hc2 Hd (F3 tm eq_refl) Hs' Er) as H. fold r' in H.
+      destruct res as [v|]; intros E; injection E as <- <-.
+      + destruct H as (Hm & Hok & Hsd). exists v. split; [reflexivity|]. unfold sslot, rg_slot, selem. rewrite Es, Et.
+        destruct v; try discriminate. split; [exact Hok|exact Hsd].
+      + exists VNil. split; [reflexivity|]. unfold sslot, rg_slot, selem. rewrite Es, Et. rewrite H.
+        split; [apply orb_true_r|exact I].
+    - (* repeated scalar *)
+      destruct Hcs as (l0 & Hl0 & Hlen & Hall).
+      assert (El : match s with VList l => l | _ => [] end = l0) by (destruct s; cbn [rep_len] in Hl0; try discriminate; congruence).
+      rewrite El. pose proof (draw_n_range (min_n o) 10 tp ltac:(unfold min_n; destruct (o_no_empty o); lia)) as Hn.
+      destruct (draw_n (min_n o) 10 tp) as [n t1]. cbn [fst] in Hn.
+      destruct (scalar_loop_ok k (a_enum fa) (F1 k eq_refl) (N.to_nat n) l0 t1 Hall) as [Hf Hlen'].
+      destruct (scalar_loop vr o k (a_enum fa) (N.to_nat n) l0 t1) as [l' t2]. cbn [fst] in *. intros E. injection E as <- <-.
+      exists (VList l'). split; [reflexivity|]. unfold sslot, rg_slot, selem. rewrite Es, Et. apply len_le_elim in Hlen. split; [|exact Hf].
+      cbn [rep_len]. rewrite min_n_len in Hn. apply andb_true_iff. split.
+      + unfold rep_exact_ok. destruct l'; [|reflexivity]. cbn [length] in Hlen'. apply orb_true_iff. left. apply N.eqb_eq. lia.
+      + apply andb_true_iff. split; [apply N.leb_le; lia|apply len_le_intro; lia].
+    - (* repeated message *)
+      destruct Hcs as (l0 & Hl0 & Hlen & Hor & Hall).
+      assert (El : match s with VList l => l | _ => [] end = l0) by (destruct s; cbn [rep_len] in Hl0; try discriminate; congruence).
+      rewrite El. pose proof (draw_n_range (min_n o) 10 tp ltac:(unfold min_n; destruct (o_no_empty o); lia)) as Hn.
+      destruct (draw_n (min_n o) 10 tp) as [n t1]. cbn [fst] in Hn. rewrite min_n_len in Hn.
+      destruct (list_loop vr sch child depth fa tm (N.to_nat n) 0 l0 t1) as [[l' t2]| | |] eqn:Ell; try discriminate.
+      destruct (list_loop_ok child depth fa tm Hc1 _ _ _ _ _ _ Ell Hall) as (Hf & Hyes & Hno). fold r' in Hyes, Hno.
+      intros E. injection E as <- <-. cbn [v_list_clear repaired andb]. apply len_le_elim in Hlen.
+      assert (Hmsgs : forallb is_msgv l' = true).
+      { apply Forall_forallb. eapply Forall_impl; [|exact Hf]. intros x [Hx _]. exact Hx. }
+      destruct (child_ok_container vr o ann r' tm) eqn:Eok.
+      + specialize (Hyes eq_refl).
+        assert (E2 : (2 <=? r')%nat = true) by (unfold child_ok_container in Eok; apply andb_true_iff in Eok; tauto).
+        assert (Ev : (if (0 <? n) && is_nilb l' then VNil else VList l') = VList l').
+        { destruct l'; [|rewrite andb_false_r; reflexivity]. cbn [length] in Hyes. destruct (N.ltb_spec 0 n); [lia|reflexivity]. }
+        rewrite Ev. exists (VList l'). split; [reflexivity|]. unfold sslot, rg_slot, selem. rewrite Es, Et, E2. fold r'. rewrite Eok. split.
+        * cbn [rep_len negb]. apply andb_true_iff. split.
+          -- unfold rep_exact_ok. destruct l'; [|reflexivity]. cbn [length] in Hyes. apply orb_true_iff. left. apply N.eqb_eq. lia.
+          -- destruct l' as [|e l']; [apply orb_true_iff; right; apply N.eqb_eq; cbn [length] in Hyes; lia|].
+             apply andb_true_iff. split; [apply len_le_intro; lia|exact Hmsgs].
+        * eapply Forall_impl; [|exact Hf]. intros x [Hx1 Hx2]. destruct x; try discriminate. exact Hx2.
+      + specialize (Hno eq_refl). subst l'. destruct Hor as [->|Hor]; [|discriminate].
+        exists (if (0 <? n) && true then VNil else VList []). cbn [is_nilb]. split; [reflexivity|].
+        unfold sslot, rg_slot, selem. rewrite Es, Et. fold r'. rewrite Eok. cbn [negb v_list_truncate repaired].
+        destruct (N.ltb_spec 0 n); cbn [andb rep_len rep_exact_ok is_nilb].
+        * split; [reflexivity|exact I].
+        * split; [|destruct (2 <=? r')%nat; [constructor|exact I]].
+          rewrite andb_true_r. apply orb_true_iff. left. apply N.eqb_eq. lia.
+    - (* oneof member, scalar *)
+      pose proof (gen_scalar_ok o k (a_enum fa) tp Hfm (F1 k eq_refl)) as Hv.
+      destruct (gen_scalar vr o k (a_enum fa) tp) as [v t1]. cbn [fst] in Hv. intros E. injection E as <- <-.
+      left. exists v. split; [reflexivity|]. split; [|unfold succ_of; rewrite Et; reflexivity].
+      unfold sslot, rg_slot, selem. rewrite Es, Et. split; [reflexivity|exact Hv].
+    - (* oneof member, message *)
+      set (payload := match s with VSome p => p | _ => VNil end).
+      assert (Etarget : match s with VSome p => or_fresh sch tm p | _ => fresh sch tm end = or_fresh sch tm payload).
+      { unfold payload. destruct s; reflexivity. }
+      rewrite Etarget.
+      match goal with |- context [if is_any ann tm then ?a else ?b] => destruct (if is_any ann tm then a else b) as [[res t1]| | |] eqn:Er end; try discriminate.
+      assert (Hs' : payload = VNil \/ (is_msgv payload = true /\ SD r' q (IField (a_iface fa)) tm payload)).
+      { unfold payload. destruct Hcs as [->|(e & -> & H1 & _ & H2)]; auto. }
+      pose proof (msg_child_ok child depth fa tm payload tp res t1 q Hc1 Hc2 Hd (F3 tm eq_refl) Hs' Er) as H. fold r' in H.
+      destruct res as [v|]; intros E; injection E as <- <-.
+      + destruct H as (Hm & Hok & Hsd). left. exists v. split; [reflexivity|]. split; [|unfold succ_of; rewrite Et; exact Hok].
+        unfold sslot, rg_slot, selem. rewrite Es, Et. destruct v; try discriminate. split; [exact Hok|exact Hsd].
+      + right. split; [reflexivity|]. unfold succ_of. rewrite Et. exact H.
+    - (* map, scalar values *)
+      destruct Hcs as (kvs0 & Hk0 & Hlen & Hnd & Hall & _).
+      assert (El : match s with VMap kvs => kvs | _ => [] end = kvs0) by (destruct s; cbn [map_kvs] in Hk0; try discriminate; congruence).
+      rewrite El. pose proof (draw_n_range 0 10 tp ltac:(lia)) as Hn. destruct (draw_n 0 10 tp) as [n t1]. cbn [fst] in Hn.
+      destruct (map_loop vr o sch child depth kk (TScalar k) fa (N.to_nat n) kvs0 t1) as [[kvs' t2]| | |] eqn:Eml; try discriminate.
+      destruct (map_loop_ok child depth kk (TScalar k) fa Hc1 (F2 kk eq_refl) ltac:(intros k0 E0; injection E0 as <-; apply F1; reflexivity)
+                            _ _ _ _ _ (10 * q) Eml Hnd) as (I1 & I2 & I3 & _); [exact Hall|exact I|].
+      intros E. injection E as <- <-. exists (VMap kvs'). split; [reflexivity|]. apply len_le_elim in Hlen.
+      unfold sslot, rg_slot, selem. rewrite Es, Et. cbn [map_kvs]. split.
+      + repeat (apply andb_true_iff; split); auto. apply len_le_intro. lia.
+      + eapply Forall_impl; [|exact I2]. intros kv [Ha Hb]. split; [exact Ha|exact Hb].
+    - (* map, message values *)
+      destruct Hcs as (kvs0 & Hk0 & Hlen & Hnd & Hall & Htail).
+      assert (El : match s with VMap kvs => kvs | _ => [] end = kvs0) by (destruct s; cbn [map_kvs] in Hk0; try discriminate; congruence).
+      rewrite El. pose proof (draw_n_range 0 10 tp ltac:(lia)) as Hn. destruct (draw_n 0 10 tp) as [n t1]. cbn [fst] in Hn.
+      destruct (map_loop vr o sch child depth kk (TMsg tm) fa (N.to_nat n) kvs0 t1) as [[kvs' t2]| | |] eqn:Eml; try discriminate.
+      destruct (map_loop_ok child depth kk (TMsg tm) fa Hc1 (F2 kk eq_refl) ltac:(intros k0 E0; discriminate)
+                            _ _ _ _ _ (10 * q) Eml Hnd) as (I1 & I2 & I3 & I4); [exact Hall|exact Htail|].
+      intros E. injection E as <- <-. exists (VMap kvs'). split; [reflexivity|]. apply len_le_elim in Hlen.
+      unfold sslot, rg_slot, selem. rewrite Es, Et. cbn [map_kvs]. fold r'. split.
+      + repeat (apply andb_true_iff; split); auto.
+        * apply len_le_intro. lia.
+        * destruct I4 as [->|I4]; [reflexivity|]. fold r' in I4. rewrite I4. apply orb_true_r.
+        * apply Forall_forallb. eapply Forall_impl; [|exact I2]. intros kv [_ [Hb _]]. exact Hb.
+      + eapply Forall_impl; [|exact I2]. intros kv [Ha [Hb Hc]]. split; [exact Ha|]. destruct (snd kv); try discriminate.
+        eapply sdeep_mono; [|exact Hc]. lia.
+  Qed.
 End Sound.
